@@ -14,6 +14,7 @@ from checks import phys
 from refs import reference as ref
 
 ID = 'C11'
+HASHSEED_EVERY = {'quick': 50, 'thorough': 300}     # one case in so many is also run under other string-hash seeds (harness._run_hashseed_invariant)
 BUDGET = {'quick': 500, 'thorough': 40000}
 WALL = {'quick': 150, 'thorough': 3000}
 CHUNK = 6
@@ -53,7 +54,7 @@ def gen(rng, tier, idx):
     return dict(P=max(g[0] * g[1] for g in grids), ckw=ckw, grids=grids,
                 edge=rng.choice(['fEq', 'null', 'periodic']),
                 amp=10.0 ** rng.uniform(-3, 3), dtsign=rng.choice([1, 1, -1]),
-                fseed=rng.randrange(1 << 30), zero_phi=rng.random() < 0.05, again=rng.random() < 0.35, sched=sched)
+                fseed=rng.randrange(1 << 30), zero_phi=rng.random() < 0.05, again=rng.random() < 0.35, dt2_factor=rng.choice([1, 1, 2, -1]), sched=sched)
 
 
 def fields(case):
@@ -116,13 +117,27 @@ def run(case, tape=None):
                                                                unchanged=bool(np.array_equal(view, line))))
                 if trial == 0 and not (np.all(holder[:, 0] == 7.0) and np.all(holder[:, 2] == 7.0)):
                     raise OracleFail('advection-differs', dict(step='step() wrote outside its line', rank=rank))
+            # step() keeps nothing from one call to the next: the same speed with another time step (half / full
+            # step of a splitting, a reversal) gives what an object that was never used gives
+            from pygyro.advection.advection import VParallelAdvection
+            for dt2 in (2.0 * dt, -dt, dt):
+                a1 = np.array(line, copy=True)
+                a2 = np.array(line, copy=True)
+                pipe.vParAdv.step(a1, dt2, cval, rval)
+                fresh2 = VParallelAdvection(f.eta_grid, f.getSpline(3), constants, edge=case['edge'])
+                fresh2.step(a2, dt2, cval, rval)
+                if not cm.bits_equal(a1, a2):
+                    raise OracleFail('advection-differs', dict(step='step() depends on earlier calls of the same object',
+                                                               rank=rank, dt=float(dt2), c=cval,
+                                                               relerr=float(np.max(np.abs(a1 - a2)))))
             pipe.parGradVals[:] = np.nan
             pipe.vParAdv.gridStep(f, phi, pipe.parGrad, pipe.parGradVals, dt)
             one = phys.block(f)
             l1d = phi.getLayout('v_parallel_1d')
             grad = ([0, 2, 1], [int(l1d.starts[0]), 0, 0], [int(l1d.ends[0]), npts[2], npts[1]],
                     np.array(pipe.parGradVals, copy=True))
-            pipe.vParAdv.gridStepKeepGradient(f, pipe.parGradVals, dt)
+            dtk = dt * case.get('dt2_factor', 1)
+            pipe.vParAdv.gridStepKeepGradient(f, pipe.parGradVals, dtk)
             two = phys.block(f)
             three = None
             if case.get('again'):
@@ -164,7 +179,7 @@ def run(case, tape=None):
                 raise OracleFail('advection-differs', dict(step='gridStep', grid=g, relerr=float(d1.max()) / scale,
                                                            at=[int(x) for x in i], edge=case['edge'],
                                                            speed=float(gref[i[:3]]), dt=dt))
-            want2, safe2 = ref.vpar_advect_ref(got1, gref, dt, eta, cdict, case['edge'])
+            want2, safe2 = ref.vpar_advect_ref(got1, gref, dt * case.get('dt2_factor', 1), eta, cdict, case['edge'])
             got2 = two.transpose(0, 2, 1, 3)
             d2 = np.abs(got2 - want2)
             d2[~safe2] = 0.0
